@@ -89,7 +89,7 @@ func (w *Worker) fdNames(s *core.VerifSnap) map[int]string {
 				}
 			}
 		case "s":
-			if nc := w.Cl.ConnByRemote(c.Local); nc != nil {
+			if nc := w.Cl.ConnByRemote(c.Local, c.Remote); nc != nil {
 				m[c.Fd] = "s:" + nc.Id
 			}
 		}
@@ -117,7 +117,7 @@ func (w *Worker) sync() *core.VerifSnap {
 	deadline := time.Now().Add(2 * time.Second)
 	for _, c := range s.Conns {
 		if c.Kind == "s" {
-			for w.Cl.ConnByRemote(c.Local) == nil && time.Now().Before(deadline) {
+			for w.Cl.ConnByRemote(c.Local, c.Remote) == nil && time.Now().Before(deadline) {
 				time.Sleep(50 * time.Microsecond)
 			}
 		}
@@ -224,7 +224,7 @@ func (w *Worker) peerFd(c *core.VerifConnSnap) int {
 			}
 		}
 	case "s":
-		if nc := w.Cl.ConnByRemote(c.Local); nc != nil && !nc.Closed {
+		if nc := w.Cl.ConnByRemote(c.Local, c.Remote); nc != nil && !nc.Closed {
 			_ = nc.rc.Control(func(f uintptr) { fd = int(f) })
 		}
 	}
@@ -357,6 +357,25 @@ func (w *Worker) apply(st *Stim) {
 			return
 		}
 		var b []byte
+		// A request counts as sent when its last byte has been written: with a write cut into chunks (or held back) the
+		// "send" lines of the requests that are not complete yet follow later, just before the chunk that completes them.
+		// (Only for well-formed requests of the kinds below: invalid input may be answered before it is complete.)
+		lazy := st.Op == "send" && len(st.Cuts) > 0
+		for _, r := range st.Reqs {
+			switch r.K {
+			case "get", "set", "mget", "mset", "del", "ping":
+			default:
+				lazy = false
+			}
+		}
+		var pend []Event // "send" lines not logged yet
+		var ends []int   // ... and the offset in b at which each of them is complete
+		logUpTo := func(n int) {
+			for len(pend) > 0 && ends[0] <= n {
+				w.Log.Add(pend[0])
+				pend, ends = pend[1:], ends[1:]
+			}
+		}
 		for _, r := range st.Reqs {
 			c.NSent++
 			ev := Event{Ev: "send", C: c.Name, I: c.NSent, K: r.K, Dups: r.Dups}
@@ -383,7 +402,11 @@ func (w *Worker) apply(st *Stim) {
 					ev.Num = len(r.Args) - 1
 				}
 			}
-			w.Log.Add(ev)
+			if lazy {
+				pend, ends = append(pend, ev), append(ends, len(b))
+			} else {
+				w.Log.Add(ev)
+			}
 		}
 		if st.Op == "raw" {
 			b, _ = hex.DecodeString(st.Hex)
@@ -392,10 +415,12 @@ func (w *Worker) apply(st *Stim) {
 		if st.Kind == "hold" && len(st.Cuts) > 0 && st.Cuts[0] > 0 && st.Cuts[0] < len(b) {
 			// only the first part is written now; the rest follows with "sendrest" (so that several clients can each
 			// have half a request pending at the same time)
+			logUpTo(st.Cuts[0])
 			if err := c.Write(b[:st.Cuts[0]]); err != nil {
 				w.Log.Add(Event{Ev: "sendfail", C: c.Name, Txt: err.Error()})
 			}
 			c.Held = append([]byte(nil), b[st.Cuts[0]:]...)
+			c.HeldEvs = pend
 			return
 		}
 		// a write cut into chunks: each chunk but the last is read by the proxy in an iteration of its own
@@ -404,6 +429,7 @@ func (w *Worker) apply(st *Stim) {
 			if cut <= prev || cut >= len(b) {
 				continue
 			}
+			logUpTo(cut)
 			if err := c.Write(b[prev:cut]); err != nil {
 				w.Log.Add(Event{Ev: "sendfail", C: c.Name, Txt: err.Error()})
 			}
@@ -413,6 +439,7 @@ func (w *Worker) apply(st *Stim) {
 				w.Log.Add(Event{Ev: "noiter"})
 			}
 		}
+		logUpTo(len(b))
 		b = b[prev:]
 		if len(b) > 60000 {
 			// larger than what the socket buffers take while the loop is parked: write in the background and
@@ -435,6 +462,10 @@ func (w *Worker) apply(st *Stim) {
 		}
 	case "sendrest":
 		if c, ok := w.Clients[st.C]; ok && !c.Closed && c.Held != nil {
+			for _, ev := range c.HeldEvs {
+				w.Log.Add(ev)
+			}
+			c.HeldEvs = nil
 			if err := c.Write(c.Held); err != nil {
 				w.Log.Add(Event{Ev: "sendfail", C: c.Name, Txt: err.Error()})
 			}
@@ -597,6 +628,10 @@ func (w *Worker) apply(st *Stim) {
 			time.Sleep(100 * time.Millisecond)
 		}
 		w.Log.Add(Event{Ev: "waitunban", N: st.N})
+	case "waitidle":
+		// real time: wait (bounded by Count ms) until the topology refresher has finished what it is doing and waits for
+		// the next probe reply (e.g. until its INFO request to a node that does not answer has timed out)
+		w.H.WaitIdle(time.Duration(st.Count) * time.Millisecond)
 	case "hshold":
 		w.Cl.HoldReadonly = st.Count == 1
 	case "hsrelease":
@@ -615,8 +650,10 @@ func (w *Worker) apply(st *Stim) {
 		}
 		w.Log.Add(Event{Ev: "nup", N: st.N})
 	case "npause":
+		w.Log.Add(Event{Ev: "npause", N: st.N})
 		w.Cl.SetPaused(st.N, true)
 	case "nresume":
+		w.Log.Add(Event{Ev: "nresume", N: st.N})
 		w.Cl.SetPaused(st.N, false)
 	case "nreadsome":
 		w.Cl.ReadSome(st.N, st.Count)
